@@ -204,7 +204,7 @@ def run(ctx):
         m, info, pick, damage, which, fail, mode = case
         n, _, _ = nl.normalize(m)
         return judge(n, info, pick, damage, which, fail, mode, res, known)
-    res = hyp.run_property(ctx, cases(), check, ctx.pick(3000, 100000), known_keys=known, time_budget=ctx.pick(300, 900))
+    res = hyp.run_property(ctx, cases(), check, ctx.pick(6000, 100000), known_keys=known, time_budget=ctx.pick(300, 900))
     return common.finish(ctx, res, "exploration", RULE,
                          ["accept-all configuration: every auxiliary variable is functionally determined and forward-evaluated exactly",
                           "damage margins are 2^-6 (far above) or 2^-40 (far below) the tolerances; the band in between is not generated",
